@@ -34,6 +34,13 @@ def write_roots():
     with open(os.path.join(lean, "Driver.lean"), "w") as fh:
         fh.write("".join("import Driver.%s\n" % m for m in dm))
 write_roots()
-r = subprocess.run(["lake", "build"], cwd=os.path.join(VERIF, "lean"))
+LEAN = os.path.join(VERIF, "lean")
+r = subprocess.run(["lake", "build"], cwd=LEAN)
+driver_ok = r.returncode == 0
+if r.returncode != 0:
+    # a proof that no longer checks is reported by the check of the property it belongs to (check.py builds the
+    # property's modules itself); setup only has to provide what every check shares: the model driver
+    sys.stderr.write("setup: `lake build` of the whole project failed; building the model driver alone\n")
+    driver_ok = subprocess.run(["lake", "build", "ccdriver"], cwd=LEAN).returncode == 0
 d = build_impl.build()
-sys.exit(0 if (r.returncode == 0 and d) else 1)
+sys.exit(0 if (driver_ok and d) else 1)
